@@ -50,14 +50,23 @@ def _val(v, tmp):
     raise ValueError(v)
 
 
-def func_to_tla(f, pos):
+NOSIG = {"known": False, "rcls": "", "rtag": "", "pcls": [], "ptag": [], "variadic": False}
+
+
+def _tag(ty):
+    """':SA.12' -> 'SA' (cproc prints the C tag and a serial number; TLA+ strings cannot be indexed)"""
+    return ty[1:].rsplit(".", 1)[0] if ty.startswith(":") else ""
+
+
+def func_to_tla(f, pos, csig=None):
+    """csig: the signature the C source gives the function (classes per parameter, known to the generator), or None"""
     tmp, lab = _Intern(), _Intern()
     rc, rt = _cls(f["ret"])
-    out = {"name": f["name"], "export": bool(f["export"]), "rcls": rc, "rty": rt, "variadic": bool(f["variadic"]),
-           "pos": pos, "params": [], "blocks": []}
+    out = {"name": f["name"], "export": bool(f["export"]), "rcls": rc, "rty": rt, "rtag": _tag(rt), "variadic": bool(f["variadic"]),
+           "pos": pos, "params": [], "blocks": [], "csig": csig or NOSIG}
     for p in f["params"]:
         c, t = _cls(p["cls"])
-        out["params"].append({"cls": c, "ty": t, "t": tmp(p["name"])})
+        out["params"].append({"cls": c, "ty": t, "tag": _tag(t), "t": tmp(p["name"])})
     for b in f["blocks"]:
         nb = {"label": lab(b["label"]), "name": b["label"], "phi": [], "insts": []}
         if b["phi"]:
@@ -131,9 +140,10 @@ def type_to_tla(t, pos):
             "size": sz if sz < BIG else 0, "pos": pos, "alts": alts, "big": big}
 
 
-def module_to_tla(mod, mid, known_data=None):
-    """mod: ilparse.parse() result. known_data: {emitted data name: (size, align)}."""
+def module_to_tla(mod, mid, known_data=None, known_sigs=None):
+    """mod: ilparse.parse() result. known_data: {emitted data name: (size, align)}; known_sigs: {function name: csig}."""
     known_data = known_data or {}
+    known_sigs = known_sigs or {}
     pos = {}
     for p, (kind, idx) in enumerate(mod["order"], 1):
         pos[(kind, idx)] = p
@@ -143,7 +153,7 @@ def module_to_tla(mod, mid, known_data=None):
     for i, d in enumerate(mod["data"]):
         out["data"].append(data_to_tla(d, pos[("data", i)], known_data.get(d["name"])))
     for i, f in enumerate(mod["funcs"]):
-        out["funcs"].append(func_to_tla(f, pos[("func", i)]))
+        out["funcs"].append(func_to_tla(f, pos[("func", i)], known_sigs.get(f["name"])))
     return out
 
 
